@@ -77,7 +77,7 @@ type rpcCall struct {
 
 func init() {
 	Register(&Scenario{
-		Name: "c14_rpc", Property: "C14", MaxSteps: 6000, Quick: 6000, Thorough: 400000,
+		Name: "c14_rpc", Property: "C14", MaxSteps: 6000, Quick: 6000, Thorough: 400000, Race: true,
 		Doc:  "two jsonrpc2.Remote ends over one simulated connection, many concurrent callers per side, parked handlers, nested call-backs, reply-before-wait, cancellations",
 		Real: []string{"jsonrpc2.Remote", "jsonrpc2.Server", "jsonrpc2.Client", "jsonrpc2 pending table"},
 		Stub: []string{"connection (SimCodec, message level)"},
@@ -105,6 +105,10 @@ func runC14(s *kernel.Sim, prod bool) {
 	}
 	ra, sa := mk("A", ca)
 	rb, sb := mk("B", cb)
+	if s.Choose("lazyclient", 3) == 0 {
+		// a Remote may be built without a Client: Call creates one on first use (client.go does that)
+		ra.Client, rb.Client = nil, nil
+	}
 	remotes := []*jsonrpc2.Remote{ra, rb}
 	svcs := []*TokenSvc{sa, sb}
 
